@@ -137,7 +137,7 @@ class MCtx:
         return (
             self.idx, self.parent.idx if self.parent else -1, self.state,
             tuple(sorted((k, c["v"], c["gen"]) for k, c in self.res.items())),
-            tuple(sorted((k, f["label"]) for k, f in self.fac.items())),
+            tuple(sorted((k, f["label"], f.get("kind", "")) for k, f in self.fac.items())),
             tuple(self.teardown), tuple(sorted(self.fac_calls.items())),
         )
 
@@ -157,6 +157,7 @@ class Universe:
         self.nval = 0
         self.nfac = 0
         self.fac_body_calls: dict[str, int] = {}
+        self.fac_invoked: dict[str, int] = {}
         self.tg: Any = None
         self.in_teardown: list[bool] = []
         self.denied_td: set[str] = set()
@@ -333,7 +334,9 @@ class Universe:
                     async def _coro() -> Any:
                         return make()
 
-                    fcb = lambda: _coro()  # noqa: E731 - an async factory that is not a coroutine function
+                    def fcb() -> Any:  # an async factory that is not a coroutine function: a plain callable returning an awaitable
+                        self.fac_invoked[flabel] = self.fac_invoked.get(flabel, 0) + 1
+                        return _coro()
                 else:
                     def fcb() -> Any:  # type: ignore[misc]
                         return make()
@@ -358,6 +361,7 @@ class Universe:
                 _, api, tname, name, optional = op
                 T = TYPES[tname]
                 kw2 = {"optional": True} if optional else {}
+                inv0 = sum(self.fac_invoked.values())
                 if api == "nowait":
                     r = ctx.get_resource_nowait(T, name, **kw2)
                 elif api == "async":
@@ -372,6 +376,9 @@ class Universe:
                     r = await injected(tname, name, optional, True)()
                 else:
                     raise AssertionError(api)
+                if api in ("async", "s_async", "inj_async") and sum(self.fac_invoked.values()) - inv0 > 1:
+                    # "the factory is called once": also a factory whose callable is cheap to call and returns the awaitable
+                    self.fail("factory", f"{op} on c{idx}: one asynchronous lookup invoked the factory callable {sum(self.fac_invoked.values()) - inv0} times")
                 return ("val", self.lab(r))
             if kind == "list":
                 # get_resources() through the module-level shortcut (the actor is inside its context: it is the current one)
@@ -434,6 +441,10 @@ class Universe:
                 ctx.add_resource(val, "z", A, teardown_callback=0)  # type: ignore[arg-type]
             elif form == "bad-td-empty":
                 ctx.add_resource(AB(vlabel), "z", [A, B], teardown_callback="")  # type: ignore[arg-type]
+            elif form == "nl-name":
+                ctx.add_resource(val, "z\n", A)  # a trailing newline is not part of a valid name
+            elif form == "f-nl-name":
+                ctx.add_resource_factory(lambda: val, "z\n", types=A)
             elif form == "f-empty-name":
                 ctx.add_resource_factory(lambda: val, "", types=A)
             elif form == "f-dot-name":
@@ -483,7 +494,8 @@ class Universe:
                 return ("exc", "RuntimeError")
             if any((t, name) in m.fac for t in types):
                 return ("exc", "ResourceConflict")
-            f = {"label": flabel, "types": types, "name": name, "async": fkind in ("async", "alambda")}
+            # ("kind" keeps states reached through differently shaped factory callables apart: they do not have the same futures)
+            f = {"label": flabel, "types": types, "name": name, "async": fkind in ("async", "alambda"), "kind": fkind}
             for t in types:
                 m.fac[(t, name)] = f
             m.events.append((types, name, "d" + flabel, True))
@@ -591,12 +603,13 @@ class Universe:
                 # the name "z" is only ever used by calls that must fail: nothing may be registered under it (a factory left behind by a
                 # failed add_resource_factory() is invisible to get_resources(), so look it up)
                 for tname in ("A", "B"):
-                    try:
-                        left = ctx.get_resource_nowait(TYPES[tname], "z", optional=True)
-                    except BaseException as e:  # noqa: BLE001
-                        left = f"<{type(e).__name__}>"
-                    if left is not None:
-                        self.fail("unchanged", f"{where}: a lookup of ({tname}, 'z') on c{idx} gives {left!r} although every call using that name failed")
+                    for zname in ("z", "z\n"):
+                        try:
+                            left = ctx.get_resource_nowait(TYPES[tname], zname, optional=True)
+                        except BaseException as e:  # noqa: BLE001
+                            left = f"<{type(e).__name__}>"
+                        if left is not None:
+                            self.fail("unchanged", f"{where}: a lookup of ({tname}, {zname!r}) on c{idx} gives {left!r} although every call using that name failed")
             try:
                 closed = bool(ctx.closed)
             except BaseException as e:  # noqa: BLE001
